@@ -600,6 +600,52 @@ Definition cc_listing_ok (s : mst) (kv : str * nat) : bool :=
 Definition cc_consistentb (s : mst) : bool :=
   forallb (cc_entry_ok s) (mdata s) && forallb (cc_listing_ok s) (mdata s).
 
+(* ------------------------------------------------------------------ exhaustive exploration *)
+(* every maximal run from [c] (depth bounded by [fuel]): which bad outcomes are reachable *)
+Record cc_summary := mkSu {
+  su_panic : bool; su_stuck : bool; su_inconsistent : bool; su_badunlock : bool; su_leak : bool;
+  su_runs : N; su_cut : bool }.
+
+Definition su0 : cc_summary := mkSu false false false false false 0%N false.
+
+Definition cc_terminal (c : cc_cfg) (a : cc_summary) : cc_summary :=
+  mkSu (su_panic a || Nat.ltb 0 (cf_panics c))
+       (su_stuck a || cc_any_unfinished c)
+       (su_inconsistent a || (negb (cc_any_unfinished c) && negb (cc_consistentb (cf_st c))))
+       (su_badunlock a || match cf_bad c with Some _ => true | None => false end)
+       (su_leak a || negb (cc_noleakb c))
+       (N.succ (su_runs a)) (su_cut a).
+
+(* steps that touch no shared data and cannot be disabled by others — start and return of a call,
+   `defer`, lock releases — are taken eagerly (they commute to the left of the other threads' steps);
+   the exploration branches on lock acquisitions and actions only *)
+Definition cc_eager (th : cc_thread) : bool :=
+  match cc_next_of th with
+  | NxStart | NxFinish | NxDeferred _ => true
+  | NxInstr (CcDefer _) | NxInstr (CcRel _) => true
+  | _ => false
+  end.
+
+Fixpoint cc_first_eager (ths : list cc_thread) (i : nat) : option nat :=
+  match ths with
+  | [] => None
+  | th :: r => if cc_eager th then Some i else cc_first_eager r (S i)
+  end.
+
+Fixpoint cc_explore (fuel : nat) (c : cc_cfg) (a : cc_summary) : cc_summary :=
+  match fuel with
+  | O => mkSu (su_panic a) (su_stuck a) (su_inconsistent a) (su_badunlock a) (su_leak a) (su_runs a) true
+  | S k =>
+    match cc_first_eager (cf_threads c) 0 with
+    | Some t => cc_explore k (cc_step c t) a
+    | None =>
+      match filter (cc_enabled c) (seq 0 (length (cf_threads c))) with
+      | [] => cc_terminal c a
+      | en => fold_left (fun a' t => cc_explore k (cc_step c t) a') en a
+      end
+    end
+  end.
+
 (* ------------------------------------------------------------------ well-typed programs *)
 (* fixed kinds: a last component starting with 'f' is a file, with 'x' a name that is only ever
    the target of a directory rename, anything else a directory *)
